@@ -148,7 +148,7 @@ func TablesWith(c explore.Chooser, defaultCol string) *prog.Program {
 	userDir := s.Pick("user.directive", userDirectives...)
 	linkDir := s.Pick("link.directive", linkDirectives...)
 	style := s.Pick("decl.style", "separate", "grouped-spec-docs", "grouped-group-doc", "plain-comment-between", "directive-on-neighbour", "comment-after-directive")
-	tableName := s.Pick("name.table", "User", "UserAccount", "U", "HTTPLog")
+	tableName := s.Pick("name.table", "User", "UserAccount", "U", "HTTPLog", "Log2Entry", "Address", "userData")
 	extraFK := s.Pick("user.extra-fk", "none", "team", "team-unique")
 
 	var b, ext strings.Builder
